@@ -59,7 +59,9 @@ REQUIRED = {'histories_compared': 300, 'observables_compared': 2000,
 TIMES = np.array([0.3, 1.0, 1.7, 2.4])
 REGS = [dict(dose=2., start=0.5, duration=0.2),
         dict(dose=1., start=0., duration=0.01, period=1., num=2),
-        dict(dose=3., start=1., duration=0.5, period=1.)]
+        dict(dose=3., start=1., duration=0.5, period=1.),
+        # (doses withdrawn: a period with zero doses)
+        dict(dose=2., start=0.2, duration=0.1, period=1., num=0)]
 
 
 class Target(object):
